@@ -318,8 +318,16 @@ enum SOp {
 }
 
 fn sequential(ctx: &Ctx, depth: usize) {
-    // state key: (current map, multiset of held snapshot maps, number of handles)
-    type Key = (Vec<u64>, Vec<Vec<u64>>, Vec<Vec<u64>>, usize);
+    // state key: (current map, multiset of held snapshot maps, owned maps, number of handles);
+    // a map is a list of (start, region instance): the same guest address can be plugged again
+    // with a new region while a snapshot still holds the earlier one. Instances are renamed to
+    // their rank among the referenced instances of the same address, which keeps exactly the
+    // information the futures depend on (which lists share an instance).
+    type Inst = (u64, u32);
+    type Key = (Vec<Inst>, Vec<Vec<Inst>>, Vec<Vec<Inst>>, usize);
+    fn sts(l: &[Inst]) -> Vec<u64> {
+        l.iter().map(|x| x.0).collect()
+    }
     let mut seen: HashSet<Key> = HashSet::new();
     let mut frontier: VecDeque<Vec<SOp>> = VecDeque::new();
     frontier.push_back(vec![]);
@@ -333,14 +341,15 @@ fn sequential(ctx: &Ctx, depth: usize) {
         let mut ptr_of: HashMap<u64, (usize, u8)> = HashMap::new();
         ptr_of.insert(0x10_0000, (r0.as_ptr() as usize, 1));
         let mut handles: Vec<Atomic> = vec![GuestMemoryAtomic::new(GuestMemoryMmap::from_arc_regions(vec![r0]).unwrap())];
-        let mut snaps: Vec<(vm_memory::GuestMemoryLoadGuard<Mem>, Vec<u64>)> = Vec::new();
-        let mut owned: Vec<(Arc<Mem>, Vec<u64>)> = Vec::new();
-        let mut current: Vec<u64> = vec![0x10_0000];
+        let mut snaps: Vec<(vm_memory::GuestMemoryLoadGuard<Mem>, Vec<Inst>)> = Vec::new();
+        let mut owned: Vec<(Arc<Mem>, Vec<Inst>)> = Vec::new();
+        let mut current: Vec<Inst> = vec![(0x10_0000, 0)];
+        let mut next_id = 1u32;
         let mut serial = 20u8;
         let acc: std::cell::RefCell<Vec<MapEvent>> = std::cell::RefCell::new(take_global_log());
-        let mut ever: Vec<(u64, usize, usize)> = vec![(0x10_0000, ptr_of[&0x10_0000].0, acc.borrow().len())];
+        let mut ever: Vec<(u64, usize, usize, u32)> = vec![(0x10_0000, ptr_of[&0x10_0000].0, acc.borrow().len(), 0)];
         let mut bad: Option<(String, String)> = None;
-        let mut apply = |op: &SOp, handles: &mut Vec<Atomic>, snaps: &mut Vec<(vm_memory::GuestMemoryLoadGuard<Mem>, Vec<u64>)>, owned: &mut Vec<(Arc<Mem>, Vec<u64>)>, current: &mut Vec<u64>| -> bool {
+        let mut apply = |op: &SOp, handles: &mut Vec<Atomic>, snaps: &mut Vec<(vm_memory::GuestMemoryLoadGuard<Mem>, Vec<Inst>)>, owned: &mut Vec<(Arc<Mem>, Vec<Inst>)>, current: &mut Vec<Inst>| -> bool {
             match op {
                 SOp::CloneHandle => {
                     if handles.is_empty() {
@@ -359,10 +368,10 @@ fn sequential(ctx: &Ctx, depth: usize) {
                     let h = handles.last().unwrap();
                     let s = h.memory();
                     let list = starts(&s);
-                    if list != *current {
-                        bad = Some(("snapshot-not-current".into(), format!("snapshot {:x?} but the current map is {:x?}", list, current)));
+                    if list != sts(current) {
+                        bad = Some(("snapshot-not-current".into(), format!("snapshot {:x?} but the current map is {:x?}", list, sts(current))));
                     }
-                    snaps.push((s, list));
+                    snaps.push((s, current.clone()));
                 }
                 SOp::CloneSnapshot(i) => {
                     if *i >= snaps.len() {
@@ -392,30 +401,31 @@ fn sequential(ctx: &Ctx, depth: usize) {
                     owned.remove(*i);
                 }
                 SOp::Insert(s) => {
-                    if current.contains(s) {
+                    if current.iter().any(|x| x.0 == *s) {
                         return false;
                     }
                     serial += 1;
                     let r = region(*s, serial);
                     ptr_of.insert(*s, (r.as_ptr() as usize, serial));
                     acc.borrow_mut().extend(take_global_log());
-                    ever.push((*s, r.as_ptr() as usize, acc.borrow().len()));
+                    ever.push((*s, r.as_ptr() as usize, acc.borrow().len(), next_id));
                     let h = &handles[0];
                     let g = h.lock().unwrap();
                     let new = h.memory().insert_region(r).unwrap();
                     g.replace(new);
-                    current.push(*s);
+                    current.push((*s, next_id));
+                    next_id += 1;
                     current.sort();
                 }
                 SOp::Remove(s) => {
-                    if !current.contains(s) || current.len() == 1 {
+                    if !current.iter().any(|x| x.0 == *s) || current.len() == 1 {
                         return false;
                     }
                     let h = handles.last().unwrap();
                     let g = h.lock().unwrap();
                     let (new, _removed) = h.memory().remove_region(GuestAddress(*s), 4096).unwrap();
                     g.replace(new);
-                    current.retain(|x| x != s);
+                    current.retain(|x| x.0 != *s);
                 }
             }
             true
@@ -437,32 +447,33 @@ fn sequential(ctx: &Ctx, depth: usize) {
         let acc = acc.into_inner();
         let unmapped: HashSet<usize> = unmapped_set(&acc);
         for (s, l) in snaps.iter().map(|(s, l)| (starts(s), l)).chain(owned.iter().map(|(s, l)| (starts(s), l))) {
-            if s != *l {
-                bad = Some(("snapshot-changed-while-held".into(), format!("{:x?} became {:x?}", l, s)));
+            if s != sts(l) {
+                bad = Some(("snapshot-changed-while-held".into(), format!("{:x?} became {:x?}", sts(l), s)));
             }
         }
         // all handles show the current map
         for h in &handles {
-            if starts(&h.memory()) != current {
-                bad = Some(("handles-disagree".into(), format!("a handle shows {:x?}, current is {:x?}", starts(&h.memory()), current)));
+            if starts(&h.memory()) != sts(&current) {
+                bad = Some(("handles-disagree".into(), format!("a handle shows {:x?}, current is {:x?}", starts(&h.memory()), sts(&current))));
             }
         }
         // a region is unmapped iff no snapshot / owned map / current map contains it
-        let mut reachable: BTreeSet<u64> = current.iter().cloned().collect();
+        // (per region instance: the same guest address may have been plugged several times)
+        let mut reachable: BTreeSet<u32> = current.iter().map(|x| x.1).collect();
         for (_, l) in snaps.iter().map(|(s, l)| (s, l)) {
-            reachable.extend(l.iter().cloned());
+            reachable.extend(l.iter().map(|x| x.1));
         }
         for (_, l) in &owned {
-            reachable.extend(l.iter().cloned());
+            reachable.extend(l.iter().map(|x| x.1));
         }
-        for (s, p, born) in &ever {
-            let still = ptr_of.get(s).map_or(false, |x| x.0 == *p) && reachable.contains(s);
+        for (s, p, born, id) in &ever {
+            let still = reachable.contains(id);
             // this instance is gone iff its address was unmapped after it was created
             let gone = acc[*born..].iter().any(|e| matches!(e, MapEvent::Unmap { addr, .. } if addr == p));
             if still && gone {
                 bad = Some(("mapping-released-while-reachable".into(), format!("region {:#x} is still listed by a live map or snapshot but was unmapped", s)));
             }
-            if !still && !gone && !reachable.contains(s) {
+            if !still && !gone {
                 bad = Some(("mapping-leaked".into(), format!("region {:#x} is not reachable any more but was not unmapped", s)));
             }
         }
@@ -483,11 +494,17 @@ fn sequential(ctx: &Ctx, depth: usize) {
             ctx.fail(&format!("C11/sequential/{}", k), &format!("after {:?}: {}", hist, d), json!({"history": format!("{:?}", hist)}));
             continue;
         }
-        let mut sl: Vec<Vec<u64>> = snaps.iter().map(|s| s.1.clone()).collect();
+        // canonical instance names: rank among the referenced instances of the same address
+        let mut refd: BTreeSet<Inst> = current.iter().cloned().collect();
+        for l in snaps.iter().map(|s| &s.1).chain(owned.iter().map(|s| &s.1)) {
+            refd.extend(l.iter().cloned());
+        }
+        let canon = |l: &Vec<Inst>| -> Vec<Inst> { l.iter().map(|x| (x.0, refd.iter().filter(|y| y.0 == x.0 && y.1 < x.1).count() as u32)).collect() };
+        let mut sl: Vec<Vec<Inst>> = snaps.iter().map(|s| canon(&s.1)).collect();
         sl.sort();
-        let mut ol: Vec<Vec<u64>> = owned.iter().map(|s| s.1.clone()).collect();
+        let mut ol: Vec<Vec<Inst>> = owned.iter().map(|s| canon(&s.1)).collect();
         ol.sort();
-        let key: Key = (current.clone(), sl, ol, handles.len());
+        let key: Key = (canon(&current), sl, ol, handles.len());
         if !seen.insert(key) || hist.len() >= depth {
             continue;
         }
@@ -553,16 +570,16 @@ pub fn run(tier: Tier, replay: Option<String>) -> i32 {
     let configs = vec![
         Config { name: "1-updater-1-reader", updaters: vec![vec![0x20_0000]], readers: 1, bound: None },
         Config { name: "2-updaters", updaters: vec![vec![0x20_0000], vec![0x30_0000]], readers: 0, bound: None },
-        Config { name: "2-updaters-1-reader", updaters: vec![vec![0x20_0000], vec![0x30_0000]], readers: 1, bound: Some(if thorough { 3 } else { 2 }) },
-        Config { name: "1-updater-2-rounds-2-readers", updaters: vec![vec![0x20_0000, 0x30_0000]], readers: 2, bound: Some(if thorough { 3 } else { 2 }) },
+        Config { name: "2-updaters-1-reader", updaters: vec![vec![0x20_0000], vec![0x30_0000]], readers: 1, bound: Some(if thorough { 5 } else { 2 }) },
+        Config { name: "1-updater-2-rounds-2-readers", updaters: vec![vec![0x20_0000, 0x30_0000]], readers: 2, bound: Some(if thorough { 4 } else { 2 }) },
         // the first region is removed while readers hold snapshots that still contain it
-        Config { name: "insert-then-remove-vs-reader", updaters: vec![vec![0x20_0000, REMOVE | 0x10_0000]], readers: 1, bound: Some(if thorough { 4 } else { 3 }) },
-        Config { name: "inserter-and-remover-vs-reader", updaters: vec![vec![0x20_0000], vec![0x30_0000, REMOVE | 0x10_0000]], readers: 1, bound: Some(2) },
+        Config { name: "insert-then-remove-vs-reader", updaters: vec![vec![0x20_0000, REMOVE | 0x10_0000]], readers: 1, bound: if thorough { None } else { Some(3) } },
+        Config { name: "inserter-and-remover-vs-reader", updaters: vec![vec![0x20_0000], vec![0x30_0000, REMOVE | 0x10_0000]], readers: 1, bound: Some(if thorough { 4 } else { 2 }) },
     ];
     for cfg in &configs {
         run_config(&ctx, cfg);
     }
-    sequential(&ctx, if thorough { 6 } else { 5 });
+    sequential(&ctx, if thorough { 7 } else { 5 });
     trivial_address_spaces(&ctx);
     ctx.extra("configs", json!(*CONFIG_INFO.lock().unwrap()));
     ctx.finish()
